@@ -423,3 +423,19 @@ def psrc(p):
     if k == "rest":
         return ".."
     return "<%s>" % k
+
+
+def api_fn(facts, name):
+    """The function the crate exports under `name` at its root: the target of `pub use path::to::f [as name];` in lib.rs (the
+    interface is what lib.rs exports, not which function happens to carry the name), else a root-level fn of that name."""
+    for u in facts.uses.get((), []):
+        if u.get("glob") or (u.get("alias") or (u.get("path") or [None])[-1]) != name:
+            continue
+        tail = [x for x in u["path"] if x not in ("crate", "self", "super")]
+        hits = [k for k, fn in facts.fns.items() if tail and fn.impl is None and not fn.test and fn.name == tail[-1] and (k == "::".join(tail) or k.endswith("::" + "::".join(tail)))]
+        if len(hits) == 1:
+            return facts.fns[hits[0]]
+    k = name
+    if k in facts.fns and facts.fns[k].impl is None and not facts.fns[k].test:
+        return facts.fns[k]
+    return None
